@@ -521,6 +521,12 @@ func TestC20CLI(t *testing.T) {
 					}
 				}
 				col.Class("cli-first-file-times-out")
+				if rapid.Bool().Draw(rt, "secondspins") {
+					// ... and the second has an allowance of its own to use up
+					script = "zs = 0;\nwhile ( true ) { zs = zs + 1; }"
+					_ = os.WriteFile(sf, []byte(script), 0o644)
+					col.Class("cli-both-files-time-out")
+				}
 			}
 			ff := filepath.Join(dir, "first.in")
 			_ = os.WriteFile(ff, []byte(first), 0o644)
@@ -546,6 +552,8 @@ func TestC20CLI(t *testing.T) {
 		var want string
 		if jsonBad {
 			want = "Error parsing JSON"
+		} else if strings.HasPrefix(script, "zs = 0;\nwhile ( true )") {
+			want = "Failed to run script:" // it ends in its time allowance, by construction
 		} else if perr != nil {
 			want = "Error compiling:" + perr.Error() + "\n"
 		} else {
